@@ -1,0 +1,46 @@
+//go:build verif
+// +build verif
+
+package trie
+
+import "time"
+
+// This file is only compiled with the build tag `verif` (model-based verification harness, /verif,
+// property C05). It exposes, add-only, what the harness needs in order to run the real StartSyncing loops
+// deterministically and fast and to observe the sync frontier. Nothing here changes behaviour.
+
+// VerifSetWaitTime sets the pause between two sync iterations (100 ms by default).
+func (d *doubleListTrieSyncer) VerifSetWaitTime(wait time.Duration) {
+	d.waitTimeBetweenChecks = wait
+}
+
+// VerifFrontier returns the hashes of the missing list and of the existing list. It does not lock:
+// call it from inside the RequestHandler.RequestTrieNodes callback (StartSyncing's goroutine) or after
+// StartSyncing has returned.
+func (d *doubleListTrieSyncer) VerifFrontier() (missing [][]byte, existing [][]byte) {
+	for h := range d.missingHashes {
+		missing = append(missing, []byte(h))
+	}
+	for h := range d.existingNodes {
+		existing = append(existing, []byte(h))
+	}
+	return missing, existing
+}
+
+// VerifSetWaitTime sets the pause between two sync iterations (1 s by default).
+func (ts *trieSyncer) VerifSetWaitTime(wait time.Duration) {
+	ts.waitTimeBetweenRequests = wait
+}
+
+// VerifFrontier returns the hashes in nodesForTrie that are not yet received and the ones that are
+// received (kept in memory). Same calling rule as for the double list syncer.
+func (ts *trieSyncer) VerifFrontier() (missing [][]byte, existing [][]byte) {
+	for h, info := range ts.nodesForTrie {
+		if info.received {
+			existing = append(existing, []byte(h))
+		} else {
+			missing = append(missing, []byte(h))
+		}
+	}
+	return missing, existing
+}
